@@ -1,6 +1,6 @@
 """C11: Merkle proof checks are complete and sound (check_proof, check_block_header_proof, check_account_proof)."""
 from ..gen import cells as G
-from ..translate import arith2, prooffull
+from ..translate import arith, arith2, prooffull, cellctor
 from ..gen import tlbvals as V
 
 SPEC = dict(
@@ -52,12 +52,27 @@ SPEC = dict(
              "that they equal the hand model (c11_src_fn_check_proof: same raise decision, same returned state hash; c11_src_fn_account: for all values of the "
              "declared externals Cell.from_boc / ShardStateUnsplit.deserialize / .accounts[0][key] / .cell that compose to the model's TL-B walk); "
              "c11_src_complete, c11_src_sound_shape, c11_src_sound, c11_src_header_state_sound, c11_src_account_sound restate completeness and soundness for "
-             "the regenerated functions themselves.",
+             "the regenerated functions themselves. "
+             "check_shard_proof is regenerated AS A WHOLE FUNCTION too (pyfunc.py extended by `return` inside a loop = Py.loop?, a fold that stops at the "
+             "first return, and value-or-None results): early return for equal block ids, masterchain test, Cell.from_boc, the header comparison, both "
+             "check_proofs and the state-hash commitment in source order, the ShardHashes lookup and the loop over the descriptor's leaves with its "
+             "return inside - proved equal (c11_src_shard_full) to the hand model checkShardProof whose two Boolean parameters are now read from the "
+             "source (shardBlockInfoOk, findShardDescr), for ALL values of the declared externals; c11_src_shard_sound reads off what an accepted shard "
+             "proof guarantees. The second calling mode check_account_proof(..., return_account_descr=True) is regenerated as its own definition and "
+             "proved to return exactly when the plain mode returns, after ALL the same comparisons in the same order, the value being the ShardAccount "
+             "found under the address (c11_src_account_descr_mode). The objects the checks work on are built by the REGENERATED constructor "
+             "(Generated/CellCtor.lean = Cell.__init__ of cell.py, proved equal to Model.construct in Proofs/SrcCellCtor.lean; srcPCell / srcPCell_eq): "
+             "c11_src_binding (two trees to which the regenerated constructor assigns the same level-l hash Agree), c11_src_sound (object built by the "
+             "regenerated constructor + regenerated check_proof => the proof body agrees with every tree of that hash) and c11_src_complete_ctor state "
+             "binding, soundness and completeness end to end over regenerated definitions.",
         level_note='Trusted: Lean kernel; Spec/Cell.lean; the translator harness/translate/pyfunc.py (+ pyobj.py, pybytes.py, pyarith.py) and the declared reading of a '
                    'Cell object in harness/translate/prooffull.py (Cell = PCell, cell[i] = refs[i], get_hash / get_depth = CellInfo.getHash / getDepth, .data / .hash '
                    'property bodies checked against cell.py), validated against the running library whenever source or translator change; Model/Proof.lean '
                    'checkProof / checkBlockHeaderProof(State) / checkAccountProof are no longer trusted as transcriptions (proved equal to the regenerated '
-                   'functions), check_shard_proof and the TL-B walk stay hand models; '
+                   'functions); check_shard_proof is regenerated as well (declared reading: a BlockIdExt = its five attributes, `==` = equality of these - '
+                   'checked against BlockIdExt.__eq__; Block.deserialize(..).info, ShardStateUnsplit.deserialize, .custom.shard_hashes, .get, .list, .root_hash are '
+                   'parameters; validated by running the real function on constructed proof pairs with these calls stubbed); the cell constructor is the '
+                   'regenerated one (cellctor.py, design/translators-cell.md); the TL-B walk stays a hand model; '
                    'Model/Cell.lean, Model/Locate.lean as hand transcriptions (sampled correspondence; the '
                    'raise-tests of check_proof.py themselves are regenerated from the source and proved for all values, trusting the translator '
                    'harness/translate/pyarith.py and its reading of bytes operations in lean/TonVerif/PyBytes.lean + PyBytes2.lean; what the operands '
@@ -65,13 +80,16 @@ SPEC = dict(
                    'BoC decoding (roots = result of Cell.from_boc) is abstracted; of the TL-B walk to the account cell TWO sub-parsers remain Boolean parameters '
                    '(structure Opaque: Account.deserialize on an account$1 cell, McStateExtra.deserialize on an ordinary cell) -- every account theorem is quantified '
                    'over all their values, completeness needs them to return where such a cell is left unpruned; in the correspondence their verdicts are taken from '
-                   'the library per case; check_shard_proof is modelled with Boolean parameters and has no correspondence; SHA-256 is a parameter, soundness '
+                   'the library per case; check_shard_proof has no driver correspondence (its tie is the regenerated function + the stubbed validation); SHA-256 is a parameter, soundness '
                    'assumes no collision among the representations at hand.',
         technique='Lean 4 proof about functions regenerated from the source on every run (proved equal to the hand model for all inputs) '
                   '+ differential correspondence with the library',
     ),
     translators=[('check_proof.py raise-tests, exotic.py CellTypes->Generated/ProofChecks.lean', arith2.regenerator('ProofChecks')),
-                 ('check_proof.py check_proof / check_block_header_proof / check_account_proof (whole functions)->Generated/ProofFull.lean', prooffull.regenerate)],
+                 ('check_proof.py check_proof / check_block_header_proof / check_account_proof (both modes) / check_shard_proof (whole functions)->Generated/ProofFull.lean', prooffull.regenerate),
+                 ('exotic.py LevelMask->Generated/LevelMask.lean', arith.regenerator('LevelMask')),
+                 ('cell.py d1/d2/pruned offsets->Generated/CellArith.lean', arith.regenerator('CellArith')),
+                 ('cell.py Cell.__init__/resolve_mask/calculate_hashes/get_hash/get_depth->Generated/CellCtor.lean', cellctor.regenerate)],
     design_ref='DESIGN.md §6 C11',
     rule='trees (ordinary DAGs, exotic trees with library cells and inner Merkle proofs/updates, block-like shapes), random pruning sets at Merkle '
          'depth 1, proof = MPROOF cell over the pruned tree; positive stream must be accepted by check_proof/check_block_header_proof; negative '
@@ -81,10 +99,12 @@ SPEC = dict(
          'walk stream = states with one defect per parser branch (leaf value short / no account ref / empty account cell, fork extra cut, extra-currency value cut, '
          'ref group short / Grams cut / master_ref short / dict bit without ref, custom junk / missing / no bit, wrong tags), each pruned away (accept) and left in (reject), '
          'spec-encoded Account / McStateExtra cells from the C16 codecs. distinct = distinct (dag, op, '
-         'hash); non-trivial = proof with at least one pruned branch or a negative case',
+         'hash); shard stream = check_shard_proof (the real function, TL-B deserialisers stubbed) on honest and broken proof pairs x every stub behaviour; '
+         'non-trivial = proof with at least one pruned branch or a negative case',
     trusted_base=['harness/translate/pyfunc.py + prooffull.py: check_proof / check_block_header_proof / check_account_proof regenerated as Lean functions (declared reading of '
                   'Cell objects; Cell.from_boc and the TL-B deserialiser calls are parameters); Model/Proof.lean is proved equal to them (after fix commits 56bdc07, 3b51ac3, 83e0e94, 67bd38d); '
-                  'check_shard_proof stays a hand model with Boolean parameters',
+                  'check_shard_proof and check_account_proof(.., return_account_descr=True) are regenerated too (c11_src_shard_full, c11_src_account_descr_mode); the TL-B deserialisers they call are parameters',
+                  'harness/translate/pyobj.py + cellctor.py: Cell.__init__ regenerated (Generated/CellCtor.lean) and proved equal to Model.construct (c11_src_binding / c11_src_sound are stated over it)',
                   'Model/Locate.lean mirrors ShardStateUnsplit.deserialize / load_hashmap_aug_e / parse_aug / DepthBalanceInfo / ShardAccount by hand (after f2933e1, 602ccc8); '
                   'Account.deserialize (account$1) and McStateExtra.deserialize (ordinary cell) are Boolean parameters whose verdicts the harness takes from the library',
                   'BoC decoding (Cell.from_boc) is abstracted: roots list',
@@ -843,7 +863,11 @@ def run_account_case(ctx, nodes, roots, blk_hash, key, state_idx, expect, fkey, 
     bad_acc, bad_mc = opaque_verdicts(libs, nodes)
     if bad_acc != '-' or bad_mc != '-':
         ctx.count('opaque:library-verdict-used')
-    ctx.expect_model(f'chkacct {dag_str(nodes)} {".".join(map(str, roots))} {hx(blk_hash)} {kb.hex()} {state_idx} {bad_acc} {bad_mc}', got, fkey)
+    line = f'chkacct {dag_str(nodes)} {".".join(map(str, roots))} {hx(blk_hash)} {kb.hex()} {state_idx} {bad_acc} {bad_mc}'
+    ctx.expect_model(line, got, fkey)
+    rec = getattr(ctx, 'record_acct', None)
+    if rec is not None:            # translator validation (prooffull.Recorder): the descriptor-mode verdict and the case itself
+        rec(line, got_descr, fkey, nodes, roots, blk_hash)
     return got
 
 
@@ -1438,7 +1462,48 @@ def src_search(ctx):
     rng = ctx.rng
     if src_fn_search(ctx):
         return True
+    if src_ctor_search(ctx):
+        return True
     src_families(ctx, rng)
+    return len(ctx.failures) > n0
+
+
+def src_ctor_search(ctx):
+    """Search mode only: the cells on which the REGENERATED constructor (Generated/CellCtor.lean) and the hand model differ (evaluated by
+    Lean on the validation DAGs of cellctor.py: every type, every pruned mask under ordinary / Merkle parents, depth limits).  Each
+    differing DAG prefix whose last cell is spec-valid at level 0 is wrapped as a Merkle proof and goes through the C11 oracle
+    (`run_proof_case`: the library must accept the honest proof; a constructor that computes another hash than the spec's fails here).
+    True = a concrete failing input was found."""
+    n0 = len(ctx.failures)
+    rng = ctx.rng
+    try:
+        found = cellctor.diff_dags(ctx, cellctor.validation_dags())
+    except Exception as e:
+        ctx.notes.append(f'source-diff search (CellCtor) failed: {type(e).__name__}: {e}')
+        return False
+    found.sort(key=lambda f: sum(len(n[1]) for n in f[1]))
+    tried = 0
+    for tag, nodes, idx in found[:60]:
+        nodes = [tuple(n) for n in nodes[:max(idx) + 1]]
+        try:
+            infos = G.spec_dag(nodes)
+        except Exception:
+            continue
+        root = len(nodes) - 1
+        if infos[root] is None or not infos[root].valid or infos[root].mask != 0:
+            continue
+        try:
+            mp = make_proof(rng, nodes, infos, root, mode='none')
+        except Exception:
+            mp = None
+        if mp is None:
+            continue
+        pn, R, proot, _ = mp
+        run_proof_case(ctx, pn, R, infos[root].H[0], 'acc', 'complete:check_proof',
+                       f'Merkle proof over a tree on which the regenerated constructor differs from the model ({tag}) rejected', hdr_idx=proot, hdr_expect='acc x')
+        tried += 1
+        if len(ctx.failures) > n0 or tried >= 25:
+            break
     return len(ctx.failures) > n0
 
 
@@ -1456,6 +1521,10 @@ def src_fn_search(ctx):
     if not idx:
         return False
     ctx.src_account_first = ctx.src_account_first or any(cases[i][0].startswith('chkacct') for i in idx)
+    if any(cases[i][0].startswith('chkshard') for i in idx):
+        shard_stream(ctx, prooffull.Recorder(20240915).rng)          # check_shard_proof differs from the model: its oracle first
+        if len(ctx.failures) > n0:
+            return True
     # the differing requests are outputs of the deterministic generators below: run those families (all of them, the differing
     # requests are among them) through the oracle
     rec_rng = prooffull.Recorder(20240915).rng
@@ -1509,17 +1578,86 @@ def run(ctx):
     rng = ctx.rng
     if ctx.search and src_search(ctx):
         return
-    streams = [generic_streams, account_stream, extra_stream, walk_stream]
+    streams = [generic_streams, account_stream, shard_stream, extra_stream, walk_stream]
     if ctx.search and getattr(ctx, 'src_account_first', False):
-        streams = [account_stream, walk_stream, generic_streams, extra_stream]     # a test of check_account_proof differs: look there first
+        streams = [account_stream, shard_stream, walk_stream, generic_streams, extra_stream]     # a test of check_account_proof differs: look there first
+    if ctx.search:                   # the shard oracle is cheap (< 1 s): first when an obligation is broken
+        streams = [shard_stream] + [st for st in streams if st is not shard_stream]
     for stream in streams:
         stream(ctx, rng)
         if ctx.search and ctx.failures:
             return                   # search mode only needs one concrete failing input
 
 
+# ----------------------------------------------------------------------------- check_shard_proof (the real function, TL-B deserialisers stubbed)
+
+SHARD_PAIR_BROKEN = ('sound:notproof', 'sound:roots', 'sound:wronghash', 'account:forged-statehash')
+
+
+def shard_expect(kind, same, mc, info, custom, get, leaves):
+    """the verdict known by construction for a proof pair of an account case of this kind and the stub behaviour (prooffull.SHARD_GRID)"""
+    if same:
+        return 'none'                  # blk == shrd_blk: nothing to prove
+    if not mc:
+        return 'rej'                   # not a masterchain block
+    if kind in SHARD_PAIR_BROKEN:
+        return 'rej'                   # the proof pair itself is broken (wrapper not a Merkle proof, wrong roots, wrong / forged hash)
+    if kind == 'complete:account':     # an honest pair: accepted iff the stubs agree and a leaf carries the shard block's root hash
+        return 'descr' if (info, custom, get) == (0, 0, 0) and 1 in leaves else 'rej'
+    return None
+
+
+def run_shard_case(ctx, nodes, roots, bh, kind, params, expect=None):
+    same, mc, info, custom, get, leaves = params
+    got = prooffull.shard_lib_answer(nodes, roots, bh, same, mc, info, custom, get, leaves)
+    exp = expect if expect is not None else shard_expect(kind, same, mc, info, custom, get, leaves)
+    ctx.case(('shard', kind, tuple(nodes), tuple(roots), bh, same, mc, info, custom, get, tuple(leaves)),
+             sample={'op': 'check_shard_proof', 'cells': len(nodes), 'key': kind, 'verdict': got})
+    ctx.count(f'shard:{got}')
+    if exp is not None and got != exp:
+        ctx.fail(f'shard:{kind}', 'check_shard_proof (TL-B deserialisers stubbed) on the proof pair of this account case: '
+                 + ('accepts a pair it must reject' if exp == 'rej' else 'does not return what it must'),
+                 {'op': 'shard', 'dag': jnodes(nodes), 'roots': list(roots), 'blk_hash': bh.hex(), 'kind': kind, 'params': [same, mc, info, custom, get, list(leaves)],
+                  'expect': exp}, got, exp)
+    return got
+
+
+def shard_stream(ctx, rng):
+    """check_shard_proof on the proof pairs of a short account stream (honest pairs and pairs broken at the proof level), every stub
+    behaviour of prooffull.SHARD_GRID: equal ids, non-masterchain block, header mismatch / raise, custom None, workchain absent, leaves
+    None / matching / not matching in every position"""
+    rec = prooffull.Recorder(rng.randrange(1 << 30), scale=12)
+    account_stream(rec, rec.rng)
+    seen = {}
+    for nodes, roots, bh, kind in rec.acct_cases:
+        if kind != 'complete:account' and kind not in SHARD_PAIR_BROKEN:
+            continue
+        if seen.get(kind, 0) >= (3 if kind == 'complete:account' else 1):
+            continue
+        seen[kind] = seen.get(kind, 0) + 1
+        for params in prooffull.SHARD_GRID:
+            run_shard_case(ctx, nodes, roots, bh, kind, params)
+        if kind == 'complete:account' and len(roots) == 2:
+            # the honest pair with ONE root re-typed as an ordinary cell (same 280 bits, same child: every hash comparison still
+            # holds, only check_proof on that root can refuse it)
+            for which, name in ((0, 'block-root-not-proof'), (1, 'state-root-not-proof')):
+                mut = list(nodes)
+                k, b, r = mut[roots[which]]
+                mut[roots[which]] = (G.ORD, b, r)
+                for params in prooffull.SHARD_GRID[:3] + prooffull.SHARD_GRID[6:9]:
+                    same, mc = params[0], params[1]
+                    run_shard_case(ctx, mut, roots, bh, 'shard-' + name, params, expect='none' if same else 'rej')
+        if ctx.search and ctx.failures:
+            return
+
+
 def replay(ctx, payload):
     inp = payload.get('input') or {}
+    if inp.get('op') == 'shard':
+        pr = inp['params']
+        run_shard_case(ctx, unj(inp['dag']), inp['roots'], bytes.fromhex(inp['blk_hash']), inp.get('kind', 'replay'),
+                       (pr[0], pr[1], pr[2], pr[3], pr[4], list(pr[5])), expect=inp.get('expect'))
+        return
     if inp.get('op') == 'proof-boc':
         from pytoniq_core.boc.cell import Cell
         ctx.case(('stored-hash-forgery', inp['boc']))
